@@ -434,6 +434,11 @@ func (b *Broker) RegisterPipeline(def Pipeline, opt ...Option) error {
 		registrationPolicy: opts.withPipelineRegistrationPolicy,
 	}
 
+	// When an existing pipeline is overwritten, its nodes are no longer in use by it.
+	if replaced, err := g.roots.Nodes(def.PipelineID); err == nil {
+		b.releaseNodes(replaced)
+	}
+
 	// Store the pipeline and then update the reference count of the nodes in that pipeline.
 	g.roots.Store(def.PipelineID, pipelineReg)
 	// A node listed more than once is still only referenced by one pipeline, and
